@@ -50,13 +50,15 @@ type scenario struct {
 	RefAPISrc   int      `json:"refapi_src"`
 	RefAPITgt   int      `json:"refapi_tgt"`
 	ExtUp       int      `json:"extup,omitempty"`
+	Cancel202   int      `json:"cancel202,omitempty"` // registries answer 202 (not 204) to the DELETE of an upload session, which is what regclient takes for success
 	Opts        copyOpts `json:"opts"`
 	ByDigest    int      `json:"bydigest,omitempty"`
 	TgtByDigest int      `json:"tgtbydigest,omitempty"`
 	Init        []string `json:"init"`
 	Tag0        string   `json:"tag0"` // none | stale | same
 	Conc        int      `json:"conc,omitempty"`
-	Mode        string   `json:"mode"` // script | random | fifo | ungated
+	Mode        string   `json:"mode"`           // script | random | fifo | ungated | delay
+	Hold        []pos    `json:"hold,omitempty"` // mode delay: requests served only when nothing else can move (a slow request)
 	Script      []step   `json:"script,omitempty"`
 	Faults      []pos    `json:"faults,omitempty"`
 	Cancel      *pos     `json:"cancel,omitempty"`
